@@ -2,6 +2,7 @@ import GV.Basic.Hex
 import GV.Model.Types
 import GV.Spec.GoTypes
 import GV.Proofs.MethodSet
+import GV.Model.C09Receiver
 
 /-! Driver for topic `types` (C09): `fam <script>` runs the model, `sfam <script>` the specification,
     `dfam <script>` answers the diagnosis flags of every probe. Script grammar: see harness/js/topics/types.js. -/
@@ -213,6 +214,16 @@ def handle : List String → String
   | ["sfam", s] => runFamily .spec s
   | ["dfam", s] => runFamily .diag s
   | ["cfam", s] => runFamily .cover s
+  | _ => "bad-op"
+
+/-- topic `recv`: `shape <isPointer> <pointerExpected> <s|a|b>` — what `makeReceiver` wraps around the receiver expression -/
+def handleRecv : List String → String
+  | ["shape", ip, pe, k] =>
+    match (match k with | "s" => some GV.Recv.Kind.struct | "a" => some GV.Recv.Kind.array | "b" => some GV.Recv.Kind.basic | _ => none) with
+    | some kind =>
+      let sh := GV.Recv.makeReceiver (ip == "1") (pe == "1") kind
+      s!"clone={if sh.clone then 1 else 0} wrap={if sh.wrap then 1 else 0}"
+    | none => "bad-op"
   | _ => "bad-op"
 
 end GV.Driver.C09
